@@ -613,12 +613,13 @@ do_append(Ctx& x)
     DeviceState st = storage_get_state(x.dev);
     if (os_failed) {
         if (r == Device_Ok || st == DeviceState_Running) {
-            x.c.fail("C16", "write-failure-not-reported", kKindName[x.kind],
-                     "%s: %ld file write(s) failed during append (%ld pwrite errors, longest zero-length run %ld) but append returned %s and the device state is %s",
-                     kKindName[x.kind], g_op_write_failed, s.op_pwrite_errors, s.op_zero_streak_max, r == Device_Ok ? "Ok" : "Err", device_state_as_string(st));
-            return;
-        }
-        x.c.cls(CL_APPEND_FAILED_REPORTED);
+            // (soft in other properties' runs: a packet reported Ok that did not reach the file is C14's / C15's to see)
+            if (x.c.fail_soft("C16", "write-failure-not-reported", kKindName[x.kind],
+                              "%s: %ld file write(s) failed during append (%ld pwrite errors, longest zero-length run %ld) but append returned %s and the device state is %s",
+                              kKindName[x.kind], g_op_write_failed, s.op_pwrite_errors, s.op_zero_streak_max, r == Device_Ok ? "Ok" : "Err", device_state_as_string(st)))
+                return;
+        } else
+            x.c.cls(CL_APPEND_FAILED_REPORTED);
     }
     if (r == Device_Ok) {
         size_t base = x.acq.bytes.size();
